@@ -94,6 +94,12 @@ def _ref(mjm, xpos, xmat, key):
 
   A = geomref.geom_from_model(mjm, xpos, xmat, key[0])
   B = geomref.geom_from_model(mjm, xpos, xmat, key[1])
+  for P, X, sgn in ((A, B, 1.0), (B, A, -1.0)):
+    if P["type"] == "plane":
+      # half-space vs convex geom: signed distance = lowest point of the geom above the plane (closed form, no direction search)
+      nrm = np.asarray(P["mat"], dtype=np.float64)[:, 2]
+      low = -float(geomref.support(X["type"], X["size"], X["pos"], X["mat"], -nrm[None, :], X.get("verts"))[0])
+      return low - float(nrm @ P["pos"]), sgn * nrm, A, B
   dist, direction = geomref.signed_distance(A, B)
   return dist, direction, A, B
 
